@@ -86,9 +86,27 @@ where
             loop {
                 let request = recv_request.recv().await?;
 
-                frame
+                if let Err(err) = frame
                     .write_async::<MessageRequest<S>, _>(Pin::new(&mut stdin), &request)
-                    .await?;
+                    .await
+                {
+                    // The child did not take the request, for example because it
+                    // ran out of memory while reading it. That is this request's
+                    // failure, not the end of the sandbox: report it and start a
+                    // new child.
+                    let err = match err {
+                        Error::WriteFailed(ref io) if io.kind() == ErrorKind::BrokenPipe => {
+                            Error::Crashed
+                        }
+                        err => err,
+                    };
+                    send_response
+                        .send(Err(err))
+                        .await
+                        .map_err(|_| Error::Send("response to caller"))?;
+                    let _ = process.kill();
+                    break;
+                }
 
                 let interrupt = async {
                     ctrlc.next().await;
